@@ -37,9 +37,10 @@ def build_schemas(raw_schemas: dict[str, Mapping[str, Any]], raw_components: Map
 
     # Build initial IR for all schemas found in components
     for n, nd in raw_schemas.items():
-        # Check if schema is already registered (either by original name or sanitized name)
-        sanitized_n = NameSanitizer.sanitize_class_name(n)
-        if n not in context.parsed_schemas and sanitized_n not in context.parsed_schemas:
+        # Parse unless this very name is registered already (reached earlier through a $ref). A schema registered
+        # under the same *sanitised* name is a different declared schema ("Foo" / "foo"): both are kept, the
+        # models emitter gives them distinct class and module names.
+        if n not in context.parsed_schemas:
             _parse_schema(n, nd, context, allow_self_reference=True)
 
     # Post-condition check: each raw schema must be registered under either its original or sanitized name
